@@ -31,7 +31,8 @@
      C02_sow_is_split   sow_regex.findall == str.split on quote-free text (and the AST the
                         proof is about is the one generated from the source today:
                         C02_sow_current);
-     C02_sniff          inspect_data_section (once or twice) returns Some c;
+     C02_sniff          inspect_data_section with the SPACE delimiter (once or twice) returns
+                        Some c (the sniffer splits with split_line d, like the engine);
      C02_read_one_data  LASFile.read on such a section (Model/Read.v read_one_data, WRAP NO,
                         DLM SPACE) returns the same LASFile for every engine option: same
                         header sections, same curves, same data, NaN/NULL positions
@@ -99,7 +100,7 @@ Proof. split; [exact sow_is_current|exact sow_inspect_is_current]. Qed.
 
 Theorem C02_sniff : forall fhex subs c body,
   Forall (fun raw => dom2_lineb fhex c raw = true) body -> data_rows body <> [] ->
-  fst (inspect body subs) = Some c /\ fst (inspect_twice body subs) = Some c.
+  fst (inspect DSpace body subs) = Some c /\ fst (inspect_twice DSpace body subs) = Some c.
 Proof. intros. split; [apply (sniff_spec fhex)|apply (sniff_twice_spec fhex)]; assumption. Qed.
 
 Theorem C02_read_one_data : forall fhex fstr numeq o ls ps p l c,
@@ -182,7 +183,7 @@ Example C02_ex_normal :
         [CNum (s2l "+5E+3"); CNum (s2l "7"); CNum (s2l "3")] ].
 Proof. vm_compute. reflexivity. Qed.
 (* three non-blank lines contain a '-' and there are three data lines: the hyphen rule is dropped *)
-Example C02_ex_sniff : inspect_twice ex_body default_subs = (Some 3%nat, drop_hyphen_subs default_subs).
+Example C02_ex_sniff : inspect_twice DSpace ex_body default_subs = (Some 3%nat, drop_hyphen_subs default_subs).
 Proof. vm_compute. reflexivity. Qed.
 (* the domain is not trivial: a run-on "1-2", a decimal comma, a quoted token and a short
    row are all outside it *)
